@@ -8,6 +8,7 @@ import (
 	"strconv"
 	"strings"
 	"time"
+	"verif/sim/gen"
 
 	"github.com/ajitpratap0/GoSQLX/pkg/gosqlx"
 	"github.com/ajitpratap0/GoSQLX/pkg/sql/tokenizer"
@@ -85,6 +86,16 @@ func init() {
 // genDoc assembles a multi-line document from statements and returns the text
 // and the line ranges of its malformed statements.
 func (s *sim) genDoc() (text string, bad [][2]int, tokErr bool, structured bool) {
+	if s.sweep == nil && s.src.Intn(150, "c18.bigdoc") == 149 {
+		if s.target > s.sent+8 {
+			s.target = s.sent + 8 // every message over such a text costs tens of milliseconds
+		}
+		// a document of 70-200 KiB (far below the analysis limit): whatever a server
+		// does differently for big texts, the diagnostics published last are still
+		// those of the current one
+		s.r.Faults["document-64KiB+"]++
+		return gen.BigMultiline([]int{66, 90}[s.src.Intn(2, "c18.bigkib")], []int{0, 2}[s.src.Intn(2, "c18.bigbad")]), nil, false, false
+	}
 	switch s.src.Intn(12, "c18.doc") {
 	case 0:
 		return "", nil, false, true
@@ -306,6 +317,19 @@ func (s *sim) nextEvent() {
 		burst = 60 + s.src.Intn(120, "c18.burstlen")
 		s.r.Faults["overload-burst"]++
 	}
+	if burst == 1 && s.src.Intn(4, "c18.batch") == 3 {
+		// a client that writes a few messages back to back (inside the rate limit):
+		// the server finds the next one already waiting while it handles the first
+		burst = 2 + s.src.Intn(2, "c18.batchlen")
+		s.r.Faults["back-to-back-batch"]++
+		for b := 0; b < burst; b++ {
+			s.oneMessage(false)
+			if s.exited || s.desynced || s.sent >= s.target {
+				break
+			}
+		}
+		return
+	}
 	for b := 0; b < burst; b++ {
 		s.oneMessage(burst > 1)
 		if s.exited || s.desynced || (s.usedHuge && s.sent >= s.target) {
@@ -358,7 +382,7 @@ func (s *sim) hugeDocument() {
 		}
 		return
 	}
-	s.model[uri] = &mdoc{text: text, known: true, version: 1}
+	s.model[uri] = &mdoc{text: text, known: true, version: 1, pubSafe: true}
 	s.advance(50 * time.Millisecond)
 	lines := lineCount(text)
 	res, ok, _ := applyLSP(text, 1, 0, lines+3, 0, "SELECT FROM")
@@ -458,7 +482,7 @@ func (s *sim) didOpen() {
 	v := 1 + s.src.Intn(3, "c18.ver")
 	s.notify("textDocument/didOpen", map[string]any{"textDocument": map[string]any{"uri": uri, "languageId": "sql", "version": v, "text": text}})
 	if safe {
-		s.model[uri] = &mdoc{text: text, known: true, version: v, structured: structured, badRanges: bad, tokErr: tokErr}
+		s.model[uri] = &mdoc{text: text, known: true, version: v, structured: structured, badRanges: bad, tokErr: tokErr, pubSafe: true}
 	} else if m := s.model[uri]; m != nil {
 		m.known = false
 		m.maybe = true
@@ -606,6 +630,9 @@ func (s *sim) didChange() {
 	s.notify("textDocument/didChange", map[string]any{"textDocument": td, "contentChanges": changes})
 	if m != nil && !safe {
 		m.known = false
+	}
+	if m != nil {
+		m.pubSafe = safe
 	}
 	s.lastEditClass = strings.TrimSpace(class)
 	if m != nil {
